@@ -51,10 +51,27 @@ theorem signSplit2_digits {ds : Str} (h : ds.all Char.isDigit = true) : signSpli
     exact absurd this (digits_not_mem h (by decide))
   · rfl
 
+theorem intStrip_tight {x : Str} (h : Tight x) : intStrip x = x := by
+  have hp : ∀ c, Py.isSpace c = false → isIntSpace c = false := fun c hc => by simp [isIntSpace, hc]
+  unfold intStrip Py.rstripBy
+  have h1 : x.dropWhile isIntSpace = x := by
+    cases x with
+    | nil => rfl
+    | cons a t => simp [List.dropWhile_cons, hp a (h.1 a rfl)]
+  rw [h1]
+  have : x.reverse.dropWhile isIntSpace = x.reverse := by
+    cases hr : x.reverse with
+    | nil => rfl
+    | cons a t =>
+      have : x.getLast? = some a := by
+        rw [← List.head?_reverse, hr]; rfl
+      simp [List.dropWhile_cons, hp a (h.2 a this)]
+  rw [this, List.reverse_reverse]
+
 theorem pyInt_natText (n : Nat) : pyInt (natText n) = .ok (n : Int) := by
   have h := natText_all_digit n
   unfold pyInt
-  rw [strip_tight (digits_tight h), signSplit2_digits h]
+  rw [intStrip_tight (digits_tight h), signSplit2_digits h]
   simp [intBody_digits _ h (natText_ne_nil n), digitsVal_natText]
 
 theorem pyInt_intText (i : Int) : pyInt (intText i) = .ok i := by
@@ -72,7 +89,7 @@ theorem pyInt_intText (i : Int) : pyInt (intText i) = .ok i := by
         exact (digits_tight h).2 c hc
     simp only [intText]
     unfold pyInt
-    rw [strip_tight ht]
+    rw [intStrip_tight ht]
     simp [signSplit2, intBody_digits _ h (natText_ne_nil _), digitsVal_natText]
     rfl
 
